@@ -42,11 +42,54 @@ func (c *Ctx) stepWalkAnalysis() (*pta.Analysis, *ssa.Function, *ssa.Function) {
 	return a, step, walk
 }
 
+// wrapperAnalysis runs E1 from FuncAction.Exec — the wrapper through which every
+// action and guard of a compiled spec runs (C18-R2) and which the Step/Walk
+// analysis reaches only as a callback it cuts — with the receiver, the
+// bindings and the props protected.
+func (c *Ctx) wrapperAnalysis() (*pta.Analysis, *ssa.Function) {
+	exec := c.fn("core", "FuncAction", "Exec")
+	if exec == nil {
+		return nil, nil
+	}
+	if len(exec.Params) != 4 {
+		c.R.Break("anchor changed: FuncAction.Exec expected (action, ctx, bindings, props)")
+		return nil, nil
+	}
+	a := pta.New(pta.Config{
+		Prog:       c.P,
+		EnginePkgs: coreEngine,
+		Entries:    []*ssa.Function{exec},
+		Roots: map[*ssa.Function]map[int]pta.RootSpec{
+			exec: rootsByPos([]string{"action", "", "bs", "props"}, []int{2, 0, 2, 2}),
+		},
+		External: stdExternal,
+	})
+	a.Run()
+	c.noteAnalysis(a)
+	return a, exec
+}
+
+// wrapperEffects reports writes of the action wrapper to what it is given or to package-level state.
+func (c *Ctx) wrapperEffects(rule string, globalsOnly bool) {
+	a, _ := c.wrapperAnalysis()
+	if a == nil {
+		return
+	}
+	c.reportEffects(rule, a, func(e pta.Effect) bool {
+		if globalsOnly {
+			return e.Target.Kind == pta.KGlobal || e.Target.Kind == pta.KGlobalSub
+		}
+		return true
+	})
+	c.dischargeWrites(rule, a)
+}
+
 // C06: the engine holds no state.
 func C06(c *Ctx) {
-	c.R.Explanation = "Decides two structural necessary conditions of 'processing never modifies what it is given': (R1) no store, map update, delete, copy or append in the call-graph closure of Spec.Step / Spec.Walk (packages core, match; callbacks cut by A2) may target memory reachable from the spec, state, pending message(s), control or props arguments, or a package-level variable; (R2) the bindings map of every state returned through Stride.From/To (and Walked.Strides) is never the bindings map of the given state; (R3) the in-repo ECMAScript interpreter, which E1 reaches only through the action callback it cuts, hands scripts nothing from which the caller's bindings (any depth) or the props map are reachable. Decided by an inclusion-based points-to/effect analysis over SSA for all paths and inputs at once. Not decided: equality of repeated runs, sharing below the top-level bindings map."
+	c.R.Explanation = "Decides two structural necessary conditions of 'processing never modifies what it is given': (R1) no store, map update, delete, copy or append in the call-graph closure of Spec.Step / Spec.Walk (packages core, match; callbacks cut by A2) may target memory reachable from the spec, state, pending message(s), control or props arguments, or a package-level variable; (R2) the bindings map of every state returned through Stride.From/To (and Walked.Strides) is never the bindings map of the given state; (R3) the in-repo ECMAScript interpreter, which E1 reaches only through the action callback it cuts, hands scripts nothing from which the caller's bindings (any depth) or the props map are reachable. (R4) the same for FuncAction.Exec, the wrapper every action and guard runs through, analysed as an entry point of its own with its receiver, bindings and props protected. Decided by an inclusion-based points-to/effect analysis over SSA for all paths and inputs at once. Not decided: equality of repeated runs, sharing below the top-level bindings map."
 	c.R.Rule("C06-R1", "E1", "no write through any argument of Step/Walk nor to a package-level variable", 10)
 	c.R.Rule("C06-R2", "E1", "returned states' bindings maps never alias the given state's bindings map", 3)
+	c.R.Rule("C06-R4", "E1", "the action wrapper (FuncAction.Exec) writes nothing it is given and no package-level state", 2)
 	c.R.Rule("C06-R3", "E1", "ECMAScript actions and guards see copies: no caller data reachable from values given to the script runtime", 1)
 	a, step, walk := c.stepWalkAnalysis()
 	if a == nil {
@@ -54,6 +97,7 @@ func C06(c *Ctx) {
 	}
 	c.reportEffects("C06-R1", a, nil)
 	c.dischargeWrites("C06-R1", a)
+	c.wrapperEffects("C06-R4", false)
 
 	// R2: aliasing of returned bindings maps.
 	stateBs := a.RootObj("state", ".Bs")
